@@ -18,9 +18,10 @@ ASSUMPTIONS = [
 ]
 
 UNIVERSES = {
-    "quick": [["a", "a", "b"], ["a", "a", "b", "c"], ["a", "a", "a", "b"]],
-    "thorough": [["a", "a", "b"], ["a", "a", "b", "c"], ["a", "a", "a", "b"],
-                 ["a", "a", "b", "b", "c"], ["a", "a", "a", "b", "c"]],
+    # names are chosen so that one is a proper substring of another ("a", "b" in "ab"): a name test must be equality
+    "quick": [["a", "a", "b"], ["a", "a", "b", "ab"], ["a", "a", "a", "b"]],
+    "thorough": [["a", "a", "b"], ["a", "a", "b", "ab"], ["a", "a", "a", "b"],
+                 ["a", "a", "b", "b", "ab"], ["a", "a", "a", "b", "ab"]],
 }
 
 
